@@ -62,6 +62,10 @@ package server
 //@   ensures [specific-udp] typeis(addr1, *net.UDPAddr) && typeis(addr2, *net.UDPAddr) && unbox(addr1, *net.UDPAddr).Port == unbox(addr2, *net.UDPAddr).Port && unbox(addr1, *net.UDPAddr).IP != nil && unbox(addr2, *net.UDPAddr).IP != nil ==> (result <==> ipeq(unbox(addr1, *net.UDPAddr).IP, unbox(addr2, *net.UDPAddr).IP))
 //@   modifies nothing
 //
+// rejects(sm, p): the service has a payload detector and the detector does not accept the peeked bytes p.
+// In the clauses below rangeindex is the hidden index of the candidate loop: at a return inside the loop the
+// candidate at hand is serviceCandidates[rangeindex+1], the ones before it are 0..rangeindex.
+//@ spec rejects(sm *ServiceMap, p string) bool = implements(sm.Service, github.com/honeytrap/honeytrap/services.CanHandlerer) && !canh(any(sm.Service), p)
 //@ func (*Honeytrap).findService
 //@   check safety
 //@   requires conn != nil && 0 <= conn.consumed && conn.consumed < 1<<50
@@ -70,6 +74,8 @@ package server
 //@   ensures [some] result2 == nil ==> result0 != nil && result1 != nil
 //@   ensures [single] forall k net.Addr :: haskey(hc.ports, k) && cmpaddr(k, laddr(conn)) && len(hc.ports[k]) == 1 && (forall k2 net.Addr :: haskey(hc.ports, k2) && cmpaddr(k2, laddr(conn)) ==> k2 == k) ==> result2 == nil && result0 == hc.ports[k][0] && result1 == conn
 //@   ensures [no-port] (forall k net.Addr :: haskey(hc.ports, k) ==> !cmpaddr(k, laddr(conn))) ==> result2 != nil
+//@   ensures [first-acceptor] result2 == nil && len(serviceCandidates) >= 2 ==> 0 <= rangeindex + 1 && rangeindex + 1 < len(serviceCandidates) && result0 == serviceCandidates[rangeindex+1] && !rejects(result0, str(buffer[0:n])) && (forall j int :: 0 <= j && j <= rangeindex ==> rejects(serviceCandidates[j], str(buffer[0:n])))
+//@   ensures [none-accepts] result2 != nil && len(serviceCandidates) >= 2 && !peekUninitialized ==> rangeindex + 1 >= len(serviceCandidates) && (forall j int :: 0 <= j && j <= rangeindex ==> rejects(serviceCandidates[j], str(buffer[0:n])))
 //@   ensures [stream-raw] result2 == nil && result1 == conn ==> conn.consumed == old(conn.consumed)
 //@   ensures [stream-peeked] result2 == nil && result1 != conn ==> typeis(result1, *peekConnection) && len(unbox(result1, *peekConnection).buffer) == conn.consumed - old(conn.consumed)
 //@   modifies *
@@ -78,6 +84,8 @@ package server
 //@   loop 1: invariant (forall k net.Addr :: visited(k) ==> !cmpaddr(k, laddr(conn))) ==> len(serviceCandidates) == 0
 //@   loop 1: invariant forall k net.Addr :: visited(k) ==> haskey(hc.ports, k)
 //@   loop 2: invariant 0 <= n && n <= 1024
+//@   loop 2: invariant peekUninitialized ==> rangeindex == -1
+//@   loop 2: invariant forall j int :: 0 <= j && j <= rangeindex ==> rejects(serviceCandidates[j], str(buffer[0:n]))
 //@   loop 2: invariant peekUninitialized ==> conn.consumed == old(conn.consumed)
 //@   loop 2: invariant !peekUninitialized ==> pConn != nil && fresh(pConn) && len(pConn.buffer) == conn.consumed - old(conn.consumed)
 //
